@@ -642,10 +642,28 @@ def check_text(case, st=None, tmp=None):
     if bool(empty_cnf) != bool(empty_pb_false):
         bad('model-set', 'constant-false rows: cnfgen %d, pbgen %d' % (empty_cnf, empty_pb_false))
     ncomp = 0
-    for root, vs in comp.items():
-        if len(vs) > 20:
-            bad('harness:component-too-large', '%d variables in one component' % len(vs))
+    if any(len(vs) > 20 for vs in comp.values()):
+        # wide rows (one clause over 120 variables ...): no truth table, but the
+        # two texts are the same formula if they have the same rows -- every
+        # constraint of pbgen a clause (coefficients 1, >= 1) over the literal
+        # set of the corresponding row of cnfgen
+        rowsA = sorted(tuple(sorted(c)) for c in P.clauses) if not as_opb else None
+        rowsB = sorted(tuple(sorted(l for (_, l) in terms)) for (terms, rel, deg) in cons
+                       if rel == '>=' and deg == 1 and all(co == 1 for (co, _) in terms))
+        if rowsA is not None and len(rowsB) == len(cons) and rowsA == rowsB \
+                and all(len(set(map(abs, r))) == len(r) for r in rowsA):
+            st['rowwise_identical'] = True
+            st['components'] = 0
+            st['nontrivial'] = True
             return out
+        big = max(len(vs) for vs in comp.values())
+        if rowsA is not None and len(rowsB) == len(cons):
+            bad('model-set', 'both texts are lists of clauses, but not the same ones: cnfgen %d rows, pbgen %d; '
+                'first rows %r / %r' % (len(rowsA), len(rowsB), rowsA[:1], rowsB[:1]))
+        else:
+            bad('harness:component-too-large', '%d variables in one component' % big)
+        return out
+    for root, vs in comp.items():
         idx = {v: i + 1 for i, v in enumerate(vs)}
         k = len(vs)
         loc = lambda l: idx[abs(l)] if l > 0 else -idx[abs(l)]
@@ -686,6 +704,9 @@ def text_cases(tier):
         for cmd, argv in (('php', ['php', 3, 2]), ('kcolor', ['kcolor', 2, 'complete', 3]),
                           ('count', ['count', 4, 2]), ('tseitin', ['tseitin', 'first', 'complete', 4])):
             cs.append({'lvl': 'text', 'cmd': cmd, 'argv': argv, 'bigfiles': {}, 'flags': fl})
+    # clauses with 119..241 literals (row lengths at which a writer may wrap)
+    for (p_, n_) in ((70, 50), (120, 0), (0, 119), (121, 0), (200, 40), (120, 121)):
+        add('or', ['or', p_, n_])
     # what cnfgen prints when asked for OPB against what pbgen prints, also for
     # instances with clauses / constraints that have no literals at all
     for cmd, argv in (('php', ['php', 3, 2]), ('php', ['php', 2, 0]), ('php', ['php', 0, 2]),
